@@ -313,6 +313,7 @@ package sqlittle
 
 //@ func sqlittle.indexedSelectNonRowid$1
 //@   trusted writes the parent's key slice (see above)
+//@   free-requires [pkflags] len(pk) == len(schema.PK) && (forall i int :: 0 <= i && i < len(pk) ==> (pk[i].Desc <==> schema.PK[i].SortOrder == 1))
 //@   implements functype db.RecordCB
 
 //@ func sqlittle.indexedSelectEqNonRowid
@@ -332,6 +333,7 @@ package sqlittle
 
 //@ func sqlittle.indexedSelectEqNonRowid$1
 //@   trusted writes the parent's key slice (see above)
+//@   free-requires [pkflags] len(pk) == len(schema.PK) && (forall i int :: 0 <= i && i < len(pk) ==> (pk[i].Desc <==> schema.PK[i].SortOrder == 1))
 //@   implements functype db.RecordCB
 
 //@ func sqlittle.pkColumns
